@@ -19,6 +19,7 @@ import (
 type c16cfg struct {
 	tree      gen.OM
 	imported  gen.OM // content of the imported file (nil = no import)
+	importSub bool   // the imported file lives in a sub-directory
 	tasks     []string
 	pipelines []string
 }
@@ -230,7 +231,12 @@ func genC16(r *h.Rand) c16cfg {
 		top.Set("watchers", gen.OM{{K: "w0", V: w}})
 	}
 	if r.Chance(35) {
-		cfg.imported = gen.OM{{K: "tasks", V: gen.OM{{K: "imported-task", V: gen.OM{{K: "command", V: strOrList(r, tok("T:imported"))}}}}}}
+		it := gen.OM{{K: "command", V: strOrList(r, tok("T:imported:$WHICHENV"))}}
+		if r.Bool() {
+			it.Set("env_file", "vars.env") // relative: exists both next to the importer and next to the imported file
+		}
+		cfg.imported = gen.OM{{K: "tasks", V: gen.OM{{K: "imported-task", V: it}}}}
+		cfg.importSub = r.Bool()
 		cfg.tasks = append(cfg.tasks, "imported-task")
 		top.Set("import", []interface{}{"IMPORTFILE"})
 	}
@@ -352,11 +358,16 @@ func c16(c *h.Ctx) {
 		for _, ext := range []string{".yaml", ".json", ".toml"} {
 			d := real + "/" + ext[1:]
 			os.MkdirAll(d+"/sub", 0o755)
-			h.WriteFile(d+"/vars.env", "FROMFILE=1\nE1=fromfile\n")
+			h.WriteFile(d+"/vars.env", "FROMFILE=1\nE1=fromfile\nWHICHENV=next-to-root\n")
+			h.WriteFile(d+"/impdir/vars.env", "WHICHENV=next-to-imported-file\n")
 			tree := cloneTree(cfg.tree).(gen.OM)
 			if cfg.imported != nil {
-				tree.Set("import", []interface{}{"imp" + ext})
-				h.WriteFile(d+"/imp"+ext, mk(ext, cfg.imported))
+				imp := "imp" + ext
+				if cfg.importSub {
+					imp = "impdir/imp" + ext
+				}
+				tree.Set("import", []interface{}{imp})
+				h.WriteFile(d+"/"+imp, mk(ext, cfg.imported))
 			}
 			f := d + "/cfg" + ext
 			h.WriteFile(f, mk(ext, tree))
